@@ -1,6 +1,6 @@
 //go:build verif
 
-package memoryevict
+package cpuevict
 
 import (
 	"fmt"
@@ -25,37 +25,41 @@ import (
 	"github.com/koordinator-sh/koordinator/pkg/koordlet/util/testutil"
 )
 
-// C11 harness `selmem`: victim selection and ordering of the memory evictor.  One case = one
+// C11 harness `selcpu`: victim selection and ordering of the CPU evictor.  One case = one
 // generated pod set (QoS label, phase, eviction-policy / eviction-priority annotations,
 // eviction-enabled / priority / priority-class labels, spec.priority, per-class requests, usage
 // metric present or not) fed through the package's mock statesinformer / metric cache to the REAL
-// getPodEvictInfoAndSortByUsed / ...ByAllocatable / getSortedBEPodInfos and to
-// calculateReleaseByUsedThresholdPercent.  Observed: the returned PodEvictInfo list (order + fields).
+// getPodEvictInfoAndSortByUsed / ...ByAllocatable / getBEPodEvictInfoAndSort and to
+// calculateMilliReleaseByUsedThresholdPercent.  Observed: the returned PodEvictInfo list (order + fields).
 
 // ---- package-specific part -------------------------------------------------------------------
 
-const c11IsCPU = false
-const c11Policy = "MemoryEvict" // evaluated eviction policy name (any string; passed through)
+const c11IsCPU = true
+const c11Policy = "CPUEvict" // evaluated eviction policy name (any string; passed through)
 
-var c11PodMetric = metriccache.PodMemUsageMetric
-var c11NodeMetric = metriccache.NodeMemoryUsageMetric
+var c11PodMetric = metriccache.PodCPUUsageMetric
+var c11NodeMetric = metriccache.NodeCPUUsageMetric
 
-// metric value of a pod with milli-metric m (= int64(metric*1000)): memory metrics are whole bytes
-func c11MetricValue(m int64) float64 { return float64(m / 1000) }
+// metric value (cores) of a pod with milli-metric m (= int64(metric*1000)); m is a multiple of 125,
+// so metric = m/1000 is dyadic and metric*1000 is exact in float64
+func c11MetricValue(m int64) float64 { return float64(m) / 1000 }
 func c11MilliMetric(r *vRand) int64 {
 	if r.Chance(1, 5) {
 		return 0
 	}
-	return int64(r.Range(1, 12)) * 1000
+	return int64(r.Range(1, 24)) * 125
 }
 
-var c11ResNative, c11ResMid, c11ResBatch = corev1.ResourceMemory, apiext.MidMemory, apiext.BatchMemory
+var c11ResNative, c11ResMid, c11ResBatch = corev1.ResourceCPU, apiext.MidCPU, apiext.BatchCPU
 
 func c11ReqQty(res corev1.ResourceName, v int64) resource.Quantity {
-	return *resource.NewQuantity(v, resource.BinarySI)
+	if res == corev1.ResourceCPU {
+		return *resource.NewMilliQuantity(v, resource.DecimalSI)
+	}
+	return *resource.NewQuantity(v, resource.DecimalSI)
 }
 
-type c11Evictor = memoryEvictor
+type c11Evictor = cpuEvictor
 
 func c11SelPrio(m *c11Evictor, byReq bool, cfg *slov1alpha1.ResourceThresholdStrategy) []*qosmanagerUtil.PodEvictInfo {
 	pods := m.statesInformer.GetAllPods()
@@ -65,30 +69,31 @@ func c11SelPrio(m *c11Evictor, byReq bool, cfg *slov1alpha1.ResourceThresholdStr
 	return m.getPodEvictInfoAndSortByUsed(c11Policy, cfg, pods)
 }
 func c11SelBE(m *c11Evictor, cfg *slov1alpha1.ResourceThresholdStrategy) []*qosmanagerUtil.PodEvictInfo {
-	return m.getSortedBEPodInfos(c11Policy, cfg, m.statesInformer.GetAllPods())
+	return m.getBEPodEvictInfoAndSort(c11Policy, cfg, m.statesInformer.GetAllPods())
 }
-func c11InfoUsed(i *qosmanagerUtil.PodEvictInfo) int64 { return i.MemoryUsed }
-func c11InfoReq(i *qosmanagerUtil.PodEvictInfo) int64  { return i.MemoryRequest }
-func c11BEUsedDiv() int64                              { return 1000 }
+func c11InfoUsed(i *qosmanagerUtil.PodEvictInfo) int64 { return i.MilliCPUUsed }
+func c11InfoReq(i *qosmanagerUtil.PodEvictInfo) int64  { return i.MilliCPURequest }
+func c11BEUsedDiv() int64                              { return 1 }
 
-// used-threshold target: returns (amount, present)
+// used-threshold target: returns (milli amount, present)
 func c11Target(m *c11Evictor, node *corev1.Node, thr int64, lower *int64) (int64, bool) {
-	cfg := &slov1alpha1.ResourceThresholdStrategy{MemoryEvictThresholdPercent: ptr.To(thr), MemoryEvictLowerPercent: lower}
-	rl, _ := m.calculateReleaseByUsedThresholdPercent(cfg, node, nil)
-	q, ok := rl[corev1.ResourceMemory]
-	return q.Value(), ok
+	cfg := &slov1alpha1.ResourceThresholdStrategy{CPUEvictThresholdPercent: ptr.To(thr), CPUEvictLowerPercent: lower}
+	rl, _ := m.calculateMilliReleaseByUsedThresholdPercent(cfg, node, nil)
+	q, ok := rl[corev1.ResourceCPU]
+	return q.MilliValue(), ok
 }
 func c11NodeCapacity(capacity int64) *corev1.Node {
-	n := testutil.MockTestNode("80", "1")
-	n.Status.Capacity[corev1.ResourceMemory] = *resource.NewQuantity(capacity, resource.BinarySI)
+	n := testutil.MockTestNode("1", "1G")
+	n.Status.Capacity[corev1.ResourceCPU] = *resource.NewMilliQuantity(capacity, resource.DecimalSI)
 	return n
 }
 
-// node usage metric value for `used` (the integer the code derives: int64(metric))
-func c11NodeMetricValue(used int64) float64 { return float64(used) }
+// node usage metric (cores) for `used` milli-cores (the integer the code derives: int64(metric*1000));
+// `used` is a multiple of 125 so the float round trip is exact
+func c11NodeMetricValue(used int64) float64 { return float64(used) / 1000 }
 
-const c11Buffer = 2 // memoryReleaseBufferPercent
-const c11UsedQuantum = 1
+const c11Buffer = 2 // cpuReleaseBufferPercent
+const c11UsedQuantum = 125
 
 // ---- shared part (identical in cpuevict) -----------------------------------------------------
 
